@@ -999,10 +999,13 @@ impl Element {
 
                     // short-name: make sure the hashmap in the top-level AutosarModel is updated so that this element can still be found
                     if let Some(prev_path) = prev_path {
-                        if let Some(parent) = self.parent()? {
-                            let new_path = parent.path()?;
-                            model.fix_identifiables(&prev_path, &new_path);
-                        }
+                        // the new path differs from the previous path only in its last part. It is built from the previous
+                        // path instead of asking the parent again, because that can fail when a parent element is locked
+                        // by another thread; a failure at this point would leave the renamed element under its old path
+                        let parent_prefix = prev_path.rsplit_once('/').map_or("", |(prefix, _)| prefix);
+                        let new_name = self.character_data().map(|cdata| cdata.to_string()).unwrap_or_default();
+                        let new_path = format!("{parent_prefix}/{new_name}");
+                        model.fix_identifiables(&prev_path, &new_path);
                     }
 
                     // reference: update the references hashmap in the top-level AutosarModel
